@@ -25,7 +25,7 @@ func (e *Env) Bootstrap(l *harness.Node) error {
 	req := &pdpb.BootstrapRequest{
 		Header: &pdpb.RequestHeader{ClusterId: e.ClusterID},
 		Store:  &metapb.Store{Id: 1, Address: "tikv1:20160", Version: "5.0.0"},
-		Region: &metapb.Region{Id: 2, RegionEpoch: &metapb.RegionEpoch{ConfVer: 1, Version: 1}, Peers: []*metapb.Peer{{Id: 3, StoreId: 1}}},
+		Region: &metapb.Region{Id: 1001, RegionEpoch: &metapb.RegionEpoch{ConfVer: 1, Version: 1}, Peers: []*metapb.Peer{{Id: 1002, StoreId: 1}}},
 	}
 	resp, err := e.W.Net.Dial(l.ClientURL).Bootstrap(ctx, req)
 	if err != nil {
